@@ -557,6 +557,9 @@ type listState struct {
 }
 
 //go:norace
+func (s *listState) setFinal(f *[3]int, a, b, c int) { f[0], f[1], f[2] = a, b, c }
+
+//go:norace
 func (s *listState) observe(n, capacity int, what string) {
 	if n > s.maxSeen {
 		s.maxSeen = n
@@ -580,9 +583,16 @@ func scenarioL(c *harness.Ctx) {
 	rounds := 1 + tp.Choose(3)
 	c.Config["capacity"] = capacity
 	c.Config["players"] = n
+	style := make([]int, n) // bit 0: ClientLeft also after a refused join; bit 1: leaves twice; bit 2: joins without CheckPlayer
+	for i := range style {
+		style[i] = tp.Choose(8)
+	}
 	st := &listState{}
+	final := [3]int{-1, -1, -1}
 	out, w := c.World(func(w *kernel.World) {
 		pl := server.NewPlayerList(capacity)
+		var players simsync.WaitGroup
+		players.Add(n)
 		ids := make([]uuid.UUID, n)
 		for i := range ids {
 			ids[i] = uuid.UUID{byte(i + 1)}
@@ -590,8 +600,12 @@ func scenarioL(c *harness.Ctx) {
 		for i := 0; i < n; i++ {
 			i := i
 			w.Go(fmt.Sprintf("player%d", i), func() {
+				defer players.Done()
 				for r := 0; r < rounds; r++ {
-					ok, _ := pl.CheckPlayer(fmt.Sprintf("p%d", i), ids[i], 767)
+					ok := true
+					if style[i]&4 == 0 {
+						ok, _ = pl.CheckPlayer(fmt.Sprintf("p%d", i), ids[i], 767)
+					}
 					if !ok {
 						pListFull.Hit()
 						w.Yield("harness.player")
@@ -601,6 +615,12 @@ func scenarioL(c *harness.Ctx) {
 					pl.ClientJoin(cl, server.PlayerSample{Name: fmt.Sprintf("p%d", i), ID: ids[i]})
 					if cl.wasDisconnected() {
 						pListFull.Hit()
+						if style[i]&1 != 0 {
+							// the usual `ClientJoin(c, ...); defer ClientLeft(c)` shape: the
+							// clean-up also runs for a client that was turned away
+							pListLeftAfterRefusal.Hit()
+							pl.ClientLeft(cl)
+						}
 						continue
 					}
 					st.observe(pl.Len(), capacity, "Len() after a successful join")
@@ -608,9 +628,29 @@ func scenarioL(c *harness.Ctx) {
 						w.Yield("harness.player")
 					}
 					pl.ClientLeft(cl)
+					if style[i]&2 != 0 {
+						// leaving twice (connection clean-up and an explicit kick) is harmless
+						pl.ClientLeft(cl)
+					}
 				}
 			})
 		}
+		w.Go("closing-time", func() {
+			players.Wait()
+			cnt := 0
+			pl.Range(func(server.PlayerListClient, server.PlayerSample) { cnt++ })
+			st.setFinal(&final, pl.Len(), pl.OnlinePlayer(), cnt)
+			// everybody has left: a newcomer must get in (unless the list has no room at all)
+			late, lateID := fmt.Sprintf("p%d", n), uuid.UUID{byte(n + 1)}
+			ok, _ := pl.CheckPlayer(late, lateID, 767)
+			cl := &plClient{id: n}
+			pl.ClientJoin(cl, server.PlayerSample{Name: late, ID: lateID})
+			// (recorded, not asserted: the statement bounds the list from above only)
+			if capacity > 0 && ok && !cl.wasDisconnected() {
+				pListLateAdmitted.Hit()
+			}
+			st.observe(pl.Len(), capacity, "Len() after the late join")
+		})
 		w.Go("observer", func() {
 			for k := 0; k < 2+n*rounds; k++ {
 				st.observe(pl.Len(), capacity, "Len()")
@@ -618,7 +658,7 @@ func scenarioL(c *harness.Ctx) {
 				s := pl.PlayerSamples()
 				st.observe(len(s), capacity, "PlayerSamples()")
 				for _, e := range s {
-					if e.ID[0] == 0 || int(e.ID[0]) > n || e.Name != fmt.Sprintf("p%d", int(e.ID[0])-1) {
+					if e.ID[0] == 0 || int(e.ID[0]) > n+1 || e.Name != fmt.Sprintf("p%d", int(e.ID[0])-1) {
 						st.fail("PlayerSamples() contains %q/%v which never joined", e.Name, e.ID)
 					}
 				}
@@ -647,9 +687,17 @@ func scenarioL(c *harness.Ctx) {
 		c.Fail("playerlist.capacity", "list", "over-capacity", "%s (capacity %d, %d concurrent players)", st.err, capacity, n)
 		return
 	}
+	if final == [3]int{0, 0, 0} {
+		pListEmptyAtEnd.Hit() // recorded, not asserted (see above)
+	}
 	c.Fold(uint64(st.maxSeen))
 }
 
 var pCacheCaseFold = simrt.NewProbe("typecache.foreign.document.with.case-variant.keys")
 
 var pWarpUnavailable = simrt.NewProbe("botconn.warpConn.entry.point.not.available(scenario.not.run)")
+
+var pListLeftAfterRefusal = simrt.NewProbe("playerlist.ClientLeft.after.a.refused.join")
+
+var pListLateAdmitted = simrt.NewProbe("playerlist.newcomer.admitted.after.everybody.left")
+var pListEmptyAtEnd = simrt.NewProbe("playerlist.empty.after.everybody.left(Len,OnlinePlayer,Range)")
